@@ -45,6 +45,8 @@ import (
 //     other  : () | (t)   staged in another, in-progress transaction with table id t
 //   op = (0 mode n perm) Commit with a fault | (1 perm) Commit
 //      | (2 mode n perm) Discard with a fault | (3 perm) Discard
+//      | (6 b t) an ORDINARY commit of table t lands on branch b (another writer between an interrupted
+//        Commit and its re-run): a later Commit must not land the transaction on b a second time
 //      | (4 half victim perm) Commit while ONE SQL statement inside SetWithLog of heads/<victim> fails
 //        (half 0: the reflogs INSERT, half 1: the refs upsert), injected BELOW the ref.Store method by a
 //        SQLite trigger (RAISE(ABORT)) that is dropped again before the next op.  SetWithLog must be
@@ -260,6 +262,11 @@ type c14Spec struct {
 	other  int // -1 = not staged in the other transaction
 }
 
+type c14Post struct {
+	head []byte
+	logs []c14Log
+}
+
 type c14Log struct {
 	old, new []byte
 	txid     []byte
@@ -276,13 +283,17 @@ type c14Env struct {
 	rd      *local.RepoDir
 	// branches whose reflog already carries the transaction id before the first op (hist 4)
 	preLogged []bool
-	nRefs     int // staged refs of THE transaction at the baseline
-	me        uuid.UUID
-	old       uuid.UUID
-	other     uuid.UUID
-	names     []string
-	specs     []c14Spec
-	flags     int
+	// ordinary commits made by "another writer" between ops (op kind 6)
+	obsHeads [][]byte   // heads before the first op, for the moved count of the observation
+	post     []*c14Post // branch landed by the transaction, then ordinary commit(s) on top: expected head and reflog
+	hadPlain bool
+	nRefs    int // staged refs of THE transaction at the baseline
+	me       uuid.UUID
+	old      uuid.UUID
+	other    uuid.UUID
+	names    []string
+	specs    []c14Spec
+	flags    int
 	// baseline (before the first op)
 	baseHeads [][]byte
 	baseLogs  [][]c14Log
@@ -471,6 +482,8 @@ func c14NewEnv(ctx *Ctx, flags int, specs []c14Spec) *c14Env {
 		e.baseLogs[i] = e.logs(i)
 	}
 	e.baseObjs = e.objCount()
+	e.obsHeads = append([][]byte{}, e.baseHeads...)
+	e.post = make([]*c14Post, len(specs))
 	return e
 }
 
@@ -651,11 +664,36 @@ func (e *c14Env) snapshot() *xt.T {
 func (e *c14Env) moved() int {
 	n := 0
 	for i := range e.specs {
-		if !bytes.Equal(e.head(i), e.baseHeads[i]) {
+		if !bytes.Equal(e.head(i), e.obsHeads[i]) {
 			n++
 		}
 	}
 	return n
+}
+
+// txEntries = number of reflog entries of branch i that carry the transaction id
+func (e *c14Env) txEntries(i int) int {
+	n := 0
+	for _, en := range e.logs(i) {
+		if bytes.Equal(en.txid, e.me[:]) {
+			n++
+		}
+	}
+	return n
+}
+
+// another writer: an ordinary commit of table t lands on branch i.  If the transaction has not landed
+// there yet, this simply is the branch's new pre-transaction state; if it has, the ordinary commit must
+// stay the head and the reflog must stay as it is now, whatever Commit does afterwards.
+func (e *c14Env) otherWriter(i, t int) {
+	landedBefore := !e.preLogged[i] && e.txEntries(i) > 0
+	e.plainCommit(i, t)
+	e.hadPlain = true
+	if landedBefore || e.post[i] != nil {
+		e.post[i] = &c14Post{head: e.head(i), logs: e.logs(i)}
+	} else {
+		e.baseHeads[i], e.baseLogs[i] = e.head(i), e.logs(i)
+	}
 }
 
 func (e *c14Env) observe(errClass int, amb, tamb, damb bool) *xt.T {
@@ -673,7 +711,7 @@ func (e *c14Env) observe(errClass int, amb, tamb, damb bool) *xt.T {
 		snap = xt.N(e.snapshot())
 	}
 	no := e.objCount() - e.baseObjs
-	if (amb || tamb) && mv != e.nStaged {
+	if ((amb || tamb) && mv != e.nStaged) || e.hadPlain {
 		no = 9
 	}
 	if tamb && mv != e.nStaged {
@@ -813,6 +851,16 @@ func (e *c14Env) checkState() Verdict {
 				return Fail("dangling-head", "branch %s points at a commit that is not stored", e.names[i])
 			}
 		}
+		if e.hadPlain && !e.preLogged[i] && (e.txEntries(i) > 1 || e.stacked(i) > 1) {
+			return Fail("tx-commit-duplicated", "branch %s: %d reflog entries carry the transaction id and %d commits of the transaction are in its history (want at most one each)", e.names[i], e.txEntries(i), e.stacked(i))
+		}
+		if p := e.post[i]; p != nil {
+			if !bytes.Equal(h, p.head) || !c14LogsEqual(e.logs(i), p.logs) {
+				return Fail("tx-commit-duplicated", "branch %s had landed and then received an ordinary commit; that commit is no longer the head or the reflog changed", e.names[i])
+			}
+			nl++
+			continue
+		}
 		if e.stacked(i) > 1 {
 			return Fail("duplicate-commit", "branch %s carries %d commits of the transaction (want at most one)", e.names[i], e.stacked(i))
 		}
@@ -835,7 +883,7 @@ func (e *c14Env) checkState() Verdict {
 	}
 	if e.status() == 2 {
 		for i, st := range e.stagedNow() {
-			if st && !e.preLogged[i] && (bytes.Equal(e.head(i), e.baseHeads[i]) || e.landed(i) != "") {
+			if st && !e.preLogged[i] && e.post[i] == nil && (bytes.Equal(e.head(i), e.baseHeads[i]) || e.landed(i) != "") {
 				return Fail("committed-but-partial", "transaction marked committed but staged branch %s has not landed (%d of %d landed)", e.names[i], nl, e.nStaged)
 			}
 		}
@@ -925,6 +973,16 @@ func runC14(ctx *Ctx, c *xt.T) (*xt.T, Verdict) {
 	discardPending := false // a Discard of the in-progress transaction failed part-way
 	for opi, op := range c.Kids[2].Kids {
 		kind := int(op.Kids[0].N)
+		if kind == 6 {
+			e.otherWriter(int(op.Kids[1].N), int(op.Kids[2].N))
+			bad(e.checkState())
+			ec := 0
+			if masked {
+				ec = 3
+			}
+			out.Add(e.observe(ec, faultedCommits >= 2, tamb, damb))
+			continue
+		}
 		f := &c14Fault{mode: -1}
 		if kind == 0 || kind == 4 {
 			faultedCommits++
@@ -1017,7 +1075,7 @@ func runC14(ctx *Ctx, c *xt.T) (*xt.T, Verdict) {
 						bad(Fail("commit-ok-but-incomplete", "%s returned nil but the transaction is not marked committed", what))
 					}
 					for i := range specs {
-						if e.stagedSum[i] != nil && stagedBefore[i] && !e.preLogged[i] {
+						if e.stagedSum[i] != nil && stagedBefore[i] && !e.preLogged[i] && e.post[i] == nil {
 							if why := e.landed(i); why != "" {
 								bad(Fail("commit-ok-but-incomplete", "%s returned nil but on %s: %s", what, e.names[i], why))
 							}
@@ -1035,7 +1093,7 @@ func runC14(ctx *Ctx, c *xt.T) (*xt.T, Verdict) {
 					bad(Fail("diff-mismatch", "Diff after commit: %v", derr))
 				} else {
 					for i := range specs {
-						if e.stagedSum[i] == nil || !stagedBefore[i] || e.preLogged[i] {
+						if e.stagedSum[i] == nil || !stagedBefore[i] || e.preLogged[i] || e.post[i] != nil {
 							continue
 						}
 						d, ok := m[e.names[i]]
@@ -1190,6 +1248,53 @@ func (g *c14Gen) cliFamilies(tag string, specs []c14Spec, full bool) {
 	g.emit(tag, 2, specs, g.opDT(1, 0, k), g.opD(k), g.opC(k))
 	if !full {
 		g.emit(tag, 2, specs, g.opDT(0, g.ctx.Pick(k), k), g.opD(k), g.opD(k))
+	}
+}
+
+func (g *c14Gen) opP(b, t int) *xt.T { return xt.N(xt.LI(6), xt.LI(b), xt.LI(t)) }
+
+// another writer between an interrupted Commit and its re-run: an ordinary commit lands on a staged branch
+// (only at points where which branches have landed does not depend on the enumeration order: all landed
+// after a failed status flip or a crash before it, none landed, or a single staged branch)
+func (g *c14Gen) writerFamilies(tag string, flags int, specs []c14Spec, full bool) {
+	k := len(specs)
+	var staged []int
+	for i, sp := range specs {
+		if sp.staged >= 0 {
+			staged = append(staged, i)
+		}
+	}
+	ns := len(staged)
+	for _, v := range staged {
+		t := 150 + 10*v
+		// all landed, status flip failed; ordinary commit on v; re-run; double commit; discard
+		g.emit(tag, flags, specs, g.opCT(2, 0, k), g.opP(v, t), g.opC(k), g.opC(k), g.opD(k))
+		g.ctx.Count("other_writer_between_runs")
+		// two ordinary commits, and one on every staged branch
+		if full {
+			g.emit(tag, flags, specs, g.opCT(2, 0, k), g.opP(v, t), g.opP(v, t+1), g.opC(k), g.opD(k))
+			// none landed yet (fault in the victim's own SetWithLog when it is the only staged branch, else object only)
+			g.emit(tag, flags, specs, g.opP(v, t), g.opC(k), g.opP(v, t+1), g.opC(k))
+		}
+		if flags == 0 {
+			// crash right before the status flip (all landed)
+			g.emit(tag, 0, specs, g.opCF(0, 2*ns, k), g.opP(v, t), g.opC(k), g.opC(k))
+			g.emit(tag, 0, specs, g.opCF(0, 1, k), g.opCF(0, 2*ns, k), g.opP(v, t), g.opCF(0, 0, k), g.opC(k))
+			if ns == 1 {
+				for n := 0; n <= 2; n++ {
+					g.emit(tag, 0, specs, g.opCF(0, n, k), g.opP(v, t), g.opC(k), g.opC(k))
+				}
+				g.emit(tag, 0, specs, g.opCT(0, v, k), g.opP(v, t), g.opC(k), g.opC(k))
+			}
+		}
+	}
+	if ns >= 2 {
+		ops := []*xt.T{g.opCT(2, 0, k)}
+		for _, v := range staged {
+			ops = append(ops, g.opP(v, 150+10*v))
+		}
+		ops = append(ops, g.opC(k), g.opC(k), g.opD(k))
+		g.emit(tag, flags, specs, ops...)
 	}
 }
 
@@ -1425,6 +1530,30 @@ func genC14(ctx *Ctx) []Case {
 	g.families("relog", []c14Spec{S(4, 1, false, -1)}, true)
 	g.families("relog", []c14Spec{S(4, 1, false, -1), S(1, 2, false, -1)}, ctx.Thorough())
 	g.families("relog", []c14Spec{S(0, 1, false, 21), S(4, 2, false, -1)}, ctx.Thorough())
+	// another writer between the interrupted Commit and the re-run
+	g.writerFamilies("writer", 0, []c14Spec{S(1, 1, false, -1)}, true)
+	g.writerFamilies("writer", 0, []c14Spec{S(0, 1, false, 21)}, true)
+	g.writerFamilies("writer", 0, []c14Spec{S(1, 1, false, -1), S(0, 2, false, -1)}, true)
+	g.writerFamilies("writer", 0, []c14Spec{S(3, 1, true, -1), S(2, 102, false, 21), S(1, -1, false, -1)}, ctx.Thorough())
+	g.writerFamilies("writer", 2, []c14Spec{S(1, 1, false, -1), S(0, 2, false, -1)}, false)
+	if ctx.Thorough() {
+		for _, a := range alpha[:5] {
+			for _, b := range alpha {
+				b2 := b
+				if b2.staged >= 0 {
+					b2.staged = 2
+				}
+				g.writerFamilies("writer", 0, []c14Spec{a, b2}, true)
+			}
+		}
+		for r := 0; r < 10; r++ {
+			var specs []c14Spec
+			for i := 0; i < 3+r%2; i++ {
+				specs = append(specs, randSpec(i, i < 2))
+			}
+			g.writerFamilies("writer", 2*(r%2), specs, false)
+		}
+	}
 	// the commands on a real repository directory
 	g.cliFamilies("cli", []c14Spec{S(1, 1, false, -1), S(0, 2, false, -1)}, true)
 	g.cliFamilies("cli", []c14Spec{S(3, 1, true, 21), S(2, 102, false, -1), S(1, -1, false, 22)}, false)
